@@ -122,9 +122,11 @@ import render as R  # noqa: E402
 
 
 def imp_universe(root):
+    # pkg/http.py: a module whose name equals a standard-library module; `from .http import *` in pkg/__init__.py is a
+    # RELATIVE import and must be followed like any other
     return R.Universe({"c": root + "/R/conftest.py", "cs": root + "/R/sub/conftest.py", "u": root + "/R/sub/test_u.py",
                        "ti": root + "/R/test_imp.py", "m1": root + "/R/mod1.py", "m2": root + "/R/mod2.py",
-                       "pk": root + "/R/pkg/__init__.py", "m3": root + "/R/pkg/mod3.py"})
+                       "pk": root + "/R/pkg/__init__.py", "m3": root + "/R/pkg/http.py"})
 
 
 def defid(d):
@@ -283,6 +285,48 @@ def check_c14(tier):
             g = res["res"][3 + j]
             if (g is not None and "name" in g) != (nm in want):
                 V.violation(dict(ex, name=nm, goto=g), "a usage of an installed plugin fixture does not resolve exactly when the plugin provides it")
+    # ---- part B through the real binary: "never listed as project symbols".  The project now also OVERRIDES the plugin's
+    # fixture name in tests/conftest.py; workspace/symbol must list the project's definition and no installed plugin's
+    import lsp
+    C.build_server()
+    pick = [n for n, c in enumerate(vcases) if c["target"] != "missing"]
+    pick = pick[:: max(1, len(pick) // (40 if tier == "quick" else 400))]
+
+    def sym_session(n):
+        c = vcases[n]
+        root = os.path.join(base, "v%d" % n)
+        ws = os.path.join(root, "proj")
+        with open(os.path.join(ws, "tests", "conftest.py"), "w") as fh:
+            fh.write("import pytest\n\n\n@pytest.fixture\ndef plug_fx():\n    return \"project override\"\n")
+        srv = lsp.Server(timeout=30)
+        try:
+            srv.initialize(ws)
+            syms = srv.request("workspace/symbol", {"query": ""}) or []
+            syms2 = srv.request("workspace/symbol", {"query": "plug"}) or []
+            return {"all": [(x["name"], os.path.relpath(lsp.uri_to_path(x["location"]["uri"]), root)) for x in syms],
+                    "plug": [(x["name"], os.path.relpath(lsp.uri_to_path(x["location"]["uri"]), root)) for x in syms2]}
+        except (lsp.ServerDied, lsp.Timeout) as e:
+            return {"error": str(e)}
+        finally:
+            srv.close()
+
+    for n, r in zip(pick, lsp.run_parallel(pick, sym_session, workers=6)):
+        c = vcases[n]
+        V.count()
+        V.nontriv("symbols" + json.dumps({k: v for k, v in c.items() if k != "expect"}, sort_keys=True))
+        if r is None or "__exception__" in r:
+            raise C.ToolError("LSP session failed: %r" % (r,))
+        ex = {"layout": {k: v for k, v in c.items() if k != "expect"}, "symbols": r}
+        if "error" in r:
+            V.violation(ex, "server died or stopped answering workspace/symbol on a venv layout")
+            continue
+        third_roots = ("proj/.venv/", "elsewhere/", "proj-plugins/")
+        for key in ("all", "plug"):
+            listed_third = [x for x in r[key] if x[1].startswith(third_roots)]
+            if listed_third:
+                V.violation(dict(ex, third_party_listed=listed_third), "workspace/symbol lists a fixture of an installed (third-party) plugin as a project symbol")
+            if ("plug_fx", "proj/tests/conftest.py") not in r[key]:
+                V.violation(ex, "workspace/symbol does not list the project's own fixture that overrides an installed plugin's name")
     shutil.rmtree(base, ignore_errors=True)
     V.sample({"shape": cases[0]["shape"]})
     V.sample({"venv_layout": {k: v for k, v in vcases[0].items()}})
@@ -299,4 +343,4 @@ def check_c14(tier):
              "package with submodule, missing} x {regular, editable inside / outside the workspace} x .pth naming x _pytest "
              "built-ins; classification third-party / workspace plugin and resolution from a test",
         assumptions=["absolute imports are judged only where the target sits next to the importer (rootdir-insertion semantics)",
-                     "library-level flags stand for 'never listed as project symbols' (the symbol providers filter on is_third_party)"])
+                     "'never listed as project symbols' is judged on workspace/symbol of the real binary (sampled venv layouts, with the project overriding the plugin's name)"])
